@@ -384,6 +384,10 @@ fn finish(
                 "c19.sync_failures".into(), runner.ext.c19.failures_seen
             );
             report.probes.insert(
+                "c19.entitlement_checks".into(),
+                runner.ext.c19.entitlement_checks
+            );
+            report.stats.insert(
                 "c19.views_checked".into(), runner.ext.c19.views_checked
             );
         }
